@@ -15,6 +15,7 @@ import LfsModel.Backoff
 import LfsModel.FilterProcess
 import LfsModel.CrashExec
 import LfsModel.Hooks
+import LfsModel.Track
 import LfsModel.Gen
 open Lfs
 
@@ -314,6 +315,15 @@ def c20 : List String → String
       String.intercalate "," (res.map fun f => match f with | none => "none" | some b => shaOrDash b)
   | _ => "bad-op"
 
+def c19 : List String → String
+  | ["escglob", h] => (match unhex h with | some b => hex (Trk.escapeGlob b) | none => "bad-op")
+  | ["escattr", h] => (match unhex h with | some b => hex (Trk.escapeAttr b) | none => "bad-op")
+  | ["unesc", h] => (match unhex h with | some b => hex (Trk.unescapeAttr b) | none => "bad-op")
+  | ["match", n, q] => (match unhex n, unhex q with
+      | some n, some q => if Trk.matchLit (Trk.lex (Trk.escapeGlob n)) q then "1" else "0"
+      | _, _ => "bad-op")
+  | _ => "bad-op"
+
 def answer (line : String) : String :=
   match line.splitOn " " with
   | "C07" :: rest => c07 rest
@@ -326,6 +336,7 @@ def answer (line : String) : String :=
   | "C14" :: rest => c14 rest
   | "C09" :: rest => c09 rest
   | "C20" :: rest => c20 rest
+  | "C19" :: rest => c19 rest
   | "C15" :: rest => c15 rest
   | _ => "bad-op"
 
